@@ -90,6 +90,7 @@ type Specs struct {
 	pures        map[string]*PureFunc
 	ghosts       map[string]*GhostVar
 	guards       map[string]*Guard
+	lockOrders   [][2]string // declared acquisition order: [0] is taken before [1]
 	externPure   map[string]bool
 	noInline     map[string]bool
 	files        []string
@@ -225,6 +226,14 @@ func (sp *Specs) parseFile(repo, fn string) error {
 			}
 			g := &Guard{field: pkg + "." + strings.TrimSpace(parts[0]), lockKey: pkg + "." + strings.TrimSpace(parts[1])}
 			sp.guards[g.field] = g
+			cur, lastClause = nil, nil
+		case "lock-order":
+			// lock-order sys.CachedLocations.Mutex < sys.CachedLocation.Mutex  (full names: pkg.Type.field)
+			parts := strings.Split(rest, "<")
+			if len(parts) != 2 {
+				return errf("bad lock-order")
+			}
+			sp.lockOrders = append(sp.lockOrders, [2]string{strings.TrimSpace(parts[0]), strings.TrimSpace(parts[1])})
 			cur, lastClause = nil, nil
 		case "extern-pure":
 			for _, n := range strings.Split(rest, ",") {
